@@ -169,7 +169,6 @@ def blueprint_wrapping(prog, an, rep):
         raise AnalysisError('anchor-missing add_url_rule in as_blueprint')
     call = adds[0]
     kws = {k.arg: k.value for k in call.keywords}
-    from ..rules import substitute_locals
     vf = kws.get('view_func')
     txt = src(substitute_locals(f, vf)) if vf is not None else ''
     rep.evaluated()
@@ -538,7 +537,6 @@ def repository_identity(prog, an, rep):
         gates = []
         for t in tests:
             gates += c.branch(t, isinstance(t.matched.ops[0], ast.Eq))
-            from ..rules import substitute_locals
             left = src(substitute_locals(f, t.matched.left, depth=1))
             rep.check(left.endswith(payload), R, f.qname + ': %s compared '
                       'with the payload repository %s' % (attr, attr),
